@@ -66,7 +66,9 @@ fn lib_transfer_frames(trace: &[WFrame], handle: u32) -> Vec<&WFrame> {
         .collect()
 }
 
-pub async fn scenario(x: u32, events: Vec<Ev>) -> Obs {
+/// `link_split`: the sender link has max-message-size 200, so that the LINK splits the 3-frame message into
+/// transfers the session counts one by one (no transport-level splitting happens in that configuration)
+pub async fn scenario(x: u32, link_split: bool, events: Vec<Ev>) -> Obs {
     let mut obs = Obs::default();
     let mut auto = Auto::default();
     auto.max_frame_size = 512;
@@ -92,7 +94,11 @@ pub async fn scenario(x: u32, events: Vec<Ev>) -> Obs {
     };
     let sender = drive(
         &mut c.peer,
-        Sender::builder().name("s1").target("q").sender_settle_mode(SenderSettleMode::Settled).attach(&mut session),
+        {
+            let b = Sender::builder().name("s1").target("q").sender_settle_mode(SenderSettleMode::Settled);
+            if link_split { b.max_message_size(200u64) } else { b }
+        }
+        .attach(&mut session),
         scen::H,
     )
     .await;
@@ -164,8 +170,9 @@ pub async fn scenario(x: u32, events: Vec<Ev>) -> Obs {
                 queued.push(20);
             }
             Some(Ev::S3) => {
-                let _ = tx.send(SendCmd::Send { body_len: 1100 });
-                queued.push(1100);
+                let big = if link_split { 480 } else { 1100 };
+                let _ = tx.send(SendCmd::Send { body_len: big });
+                queued.push(big);
             }
             Some(Ev::T) => {
                 let t = Transfer {
@@ -231,7 +238,9 @@ pub async fn scenario(x: u32, events: Vec<Ev>) -> Obs {
         for k in frames_before..frames_after {
             let id = x.wrapping_add(k);
             if sdiff(limit, id) <= 0 {
-                let cause = if frames[k as usize].perf().map(|p| matches!(p, Performative::Transfer(t) if t.delivery_id.is_none())).unwrap_or(false)
+                let cause = if link_split {
+                    " (link-split configuration)"
+                } else if frames[k as usize].perf().map(|p| matches!(p, Performative::Transfer(t) if t.delivery_id.is_none())).unwrap_or(false)
                     || matches!(frames[k as usize].perf(), Some(Performative::Transfer(t)) if t.more)
                 {
                     " (frame of a transport-split delivery)"
@@ -289,7 +298,7 @@ pub async fn scenario(x: u32, events: Vec<Ev>) -> Obs {
         }
         if i == n_ev && (pending > 0 || cur.is_some()) {
             obs.fails.push((
-                format!("held-back-transfer-never-sent{}", if multi_before { " (after a transport-split delivery)" } else { "" }),
+                format!("held-back-transfer-never-sent{}", if link_split { " (link-split configuration)" } else if multi_before { " (after a transport-split delivery)" } else { "" }),
                 format!("the peer reopened its window to 10000 but {pending} queued message(s) were not transmitted"),
             ));
         }
@@ -305,7 +314,7 @@ pub async fn scenario(x: u32, events: Vec<Ev>) -> Obs {
                     let want = x.wrapping_add(sent_so_far);
                     if f.next_outgoing_id != want {
                         obs.fails.push((
-                            format!("reported-next-outgoing-id{}", if multi_before { " (after a transport-split delivery)" } else { "" }),
+                            format!("reported-next-outgoing-id{}", if link_split { " (link-split configuration)" } else if multi_before { " (after a transport-split delivery)" } else { "" }),
                             format!("a flow reports next-outgoing-id {} after {sent_so_far} transfer frames from initial {x} (expected {want})", f.next_outgoing_id),
                         ));
                     }
@@ -333,12 +342,12 @@ pub async fn scenario(x: u32, events: Vec<Ev>) -> Obs {
     obs
 }
 
-fn run_history(x: u32, evs: Vec<Ev>) -> (HistOut, usize, usize) {
+fn run_history(x: u32, link_split: bool, evs: Vec<Ev>) -> (HistOut, usize, usize) {
     let scen: Scenario<Obs> = {
         let evs = evs.clone();
         Arc::new(move || {
             let evs = evs.clone();
-            Box::pin(scenario(x, evs))
+            Box::pin(scenario(x, link_split, evs))
         })
     };
     let ex = run_exec(vec![], &RunCfg::none(), &scen);
@@ -347,7 +356,7 @@ fn run_history(x: u32, evs: Vec<Ev>) -> (HistOut, usize, usize) {
     match ex.out {
         Some(o) => {
             out.executed = o.executed;
-            out.fails = o.fails.into_iter().map(|(s, d)| (s, format!("initial next-outgoing-id {x}: {d}"))).collect();
+            out.fails = o.fails.into_iter().map(|(s, d)| (s, format!("initial next-outgoing-id {x}{}: {d}", if link_split { ", sender max-message-size 200" } else { "" }))).collect();
             out.state_keys = o.state_keys;
             out.trace = o.trace;
             out.machinery = o.machinery;
@@ -380,18 +389,21 @@ pub fn run(ctx: &Ctx) -> Outcome {
     let multi = std::sync::atomic::AtomicUsize::new(0);
     // thorough: after the stated bound, one level deeper on the two main start values for as long as the budget
     // lasts (reported separately; a cut there does not make the stated bound incomplete)
-    let mut plan: Vec<(u32, usize, bool)> = xs.iter().map(|x| (*x, depth, false)).collect();
+    let mut plan: Vec<(u32, usize, bool, bool)> = xs.iter().map(|x| (*x, depth, false, false)).collect();
+    // the link splits the big message (sender max-message-size 200): the session counts every frame itself
+    plan.push((0, depth, false, true));
+    plan.push((u32::MAX - 1, depth, false, true));
     if !ctx.quick() {
-        plan.push((0, depth + 1, true));
-        plan.push((u32::MAX - 1, depth + 1, true));
+        plan.push((0, depth + 1, true, false));
+        plan.push((u32::MAX - 1, depth + 1, true, false));
     }
     let mut extra_note = String::new();
-    for (x, depth, extra) in plan {
+    for (x, depth, extra, link_split) in plan {
         if extra && (truncated || Instant::now() > deadline) {
             continue;
         }
         let st = search(ALPHABET.len(), depth, ctx.threads, deadline, |h| {
-            let (o, hb, m) = run_history(x, h.iter().map(|i| ALPHABET[*i]).collect());
+            let (o, hb, m) = run_history(x, link_split, h.iter().map(|i| ALPHABET[*i]).collect());
             held.fetch_add(hb, std::sync::atomic::Ordering::Relaxed);
             multi.fetch_add(m, std::sync::atomic::Ordering::Relaxed);
             o
@@ -409,7 +421,7 @@ pub fn run(ctx: &Ctx) -> Outcome {
         }
         for (h, sig, detail, trace) in st.violations {
             let evs: Vec<String> = h.iter().map(|i| format!("{:?}", ALPHABET[*i])).collect();
-            out.violation(sig, format!("history {:?}: {detail}", evs), json!({"x": x, "events": h, "event_names": evs, "trace": trace}));
+            out.violation(sig, format!("history {:?}: {detail}", evs), json!({"x": x, "link_split": link_split, "events": h, "event_names": evs, "trace": trace}));
         }
         if samples.len() < 2 {
             samples.extend(st.sample_traces.into_iter().take(1));
@@ -422,7 +434,7 @@ pub fn run(ctx: &Ctx) -> Outcome {
     out.set("steps_with_multi_frame_deliveries", multi.load(std::sync::atomic::Ordering::Relaxed) as u64);
     out.set("samples", json!(samples));
     out.set("exhaustive", !truncated);
-    out.set("bound", format!("histories of depth {depth} over {} events x initial next-outgoing-ids {:?}; peer's initial incoming-window 2; every history ends with the window reopened to 10000{extra_note}", ALPHABET.len(), xs));
+    out.set("bound", format!("histories of depth {depth} over {} events x initial next-outgoing-ids {:?}(+ the same depth from 0 and 4294967294 with the sender's max-message-size 200: the link, not the transport, splits the big message); peer's initial incoming-window 2; every history ends with the window reopened to 10000{extra_note}", ALPHABET.len(), xs));
     out.set("rule", "states = distinct (transfer frames sent, window left, messages waiting, transfers received) at quiescence; every state reached by executing the real session, link and connection engines against the scripted peer");
     out.assume("the scripted peer acts at quiescent points; a frame is judged against the last flow (or the begin) the peer sent before the step in which the frame was written");
     out
@@ -435,7 +447,7 @@ fn replay(p: &std::path::Path, mut out: Outcome) -> Outcome {
     let x = r["x"].as_u64().unwrap_or(0) as u32;
     let evs: Vec<Ev> = r["events"].as_array().map(|a| a.iter().filter_map(|v| v.as_u64()).map(|i| ALPHABET[i as usize]).collect()).unwrap_or_default();
     println!("replaying x={x} {:?}", evs);
-    let (o, _, _) = run_history(x, evs);
+    let (o, _, _) = run_history(x, r["link_split"].as_bool().unwrap_or(false), evs);
     for l in &o.trace {
         println!("  {l}");
     }
